@@ -20,7 +20,7 @@ pub fn layout() -> impl Strategy<Value = Layout> {
     (
         prop_oneof![Just(Ws::Compact), (1usize..=4).prop_map(Ws::Pretty), any::<u64>().prop_map(|s| Ws::Random(s | 1))],
         prop_oneof![Just(0u64), any::<u64>()],
-        prop_oneof![3 => Just(Escapes::None), 1 => Just(Escapes::NonAscii), 1 => Just(Escapes::SomeAscii)],
+        prop_oneof![3 => Just(Escapes::None), 1 => Just(Escapes::NonAscii), 1 => Just(Escapes::SomeAscii), 1 => Just(Escapes::Exotic)],
         prop_oneof![
             3 => Just(0usize),
             1 => Just(4000usize),
@@ -302,9 +302,227 @@ pub fn check(case: &Case, w: usize) -> CheckResult {
             }
         }
     }
+    // the configuration file is tracked by git and a checkpoint exists: re-serialising it changes
+    // the file's bytes (so it may show up in the list of changes), but not which targets are
+    // changed, how they are grouped, or what `run` executes
+    {
+        env.write_raw_config(&compact);
+        if let Err(e) = bb::commit_all_and_checkpoint(&mut env) {
+            return inconclusive(e);
+        }
+        let t0 = case.config.targets[0].path.trim_end_matches('/').to_string();
+        env.write_file(&format!("{}/c18-edited-since-checkpoint.txt", t0), b"new\n");
+        let project = |v: &Value| json!({"targets": v.get("targets"), "target_groups": v.get("target_groups"), "checkpointed": v.get("checkpointed")});
+        let small = apis.len() > BASE_APIS.len();
+        let mut reference: Option<(Value, Option<Value>)> = None;
+        let mut layouts: Vec<Layout> = vec![Layout::compact()];
+        layouts.extend(case.layouts.iter().take(2).cloned());
+        for (k, l) in layouts.iter().enumerate() {
+            let bytes = jsonw::write(&value, l);
+            env.write_raw_config(&bytes);
+            let a = env.mr(&["analyze", "--target-groups"]);
+            let Some(av) = a.json().map(|v| project(&v)) else {
+                if k == 0 {
+                    return inconclusive(format!("analyze with a checkpoint failed under the compact form: {}", a.brief()));
+                }
+                return viol_obs("c18.checkpointed.differs", "with a checkpoint, `analyze --target-groups` fails under another serialisation of the same value".into(), a.brief());
+            };
+            let rv = if small {
+                let r = env.mr(&["run", "-c", "build", "zeta"]);
+                r.json().map(|j| project_run(&j))
+            } else {
+                None
+            };
+            match &reference {
+                None => reference = Some((av, rv)),
+                Some((ra, rr)) => {
+                    if &av != ra || &rv != rr {
+                        return viol_obs(
+                            "c18.checkpointed.differs",
+                            format!("with a checkpoint and the configuration file tracked, `analyze --target-groups` / `run` give a different result for another serialisation of the same value ({} bytes, layout {:?})", bytes.len(), l),
+                            json!({"analyze": av, "reference": ra, "run_equal": &rv == rr}),
+                        );
+                    }
+                }
+            }
+        }
+        info = info.class("checkpointed-with-tracked-configuration");
+    }
     info.nontrivial = nontrivial;
     info = info.class_if(case.config.targets.len() >= 100, "targets>=100");
     Ok(info.inv(env.invocations))
+}
+
+// ---------------------------------------------------------------------------
+// in-process form: the loading step every sub-command starts with (`Config::new`, `check`, `fill`,
+// serialised as `config show` prints it), through the guarded hook `verif::config_load`
+
+/// Layouts for the in-process form: the sizes of the command-line form plus 32 KiB, 128 KiB, 1 MiB
+/// and 4 MiB (each also one byte less and more).
+pub fn layout_wide() -> impl Strategy<Value = Layout> {
+    (
+        layout(),
+        prop_oneof![
+            6 => Just(None),
+            2 => (prop_oneof![Just(32768usize), Just(131072), Just(262144)], -1i32..=1).prop_map(Some),
+            1 => (Just(1usize << 20), -1i32..=1).prop_map(Some),
+            1 => (Just(4usize << 20), -1i32..=1).prop_map(Some),
+        ],
+        proptest::option::weighted(0.15, (prop_oneof![Just(131072usize), Just(1usize << 20)], -2i32..=1, any::<u16>())),
+    )
+        .prop_map(|(mut l, big, align)| {
+            if let Some((b, d)) = big {
+                if l.align_non_ascii.is_none() {
+                    l.pad_to = (b as i64 + d as i64) as usize;
+                }
+            }
+            if let Some(a) = align {
+                l.align_non_ascii = Some(a);
+                l.escapes = Escapes::None;
+                l.pad_to = 0;
+            }
+            l
+        })
+}
+
+pub fn strategy_inproc() -> impl Strategy<Value = Case> {
+    (strategy(), vec(layout_wide(), 4..10)).prop_map(|(mut c, more)| {
+        c.layouts.extend(more);
+        c
+    })
+}
+
+/// The value of a case for the in-process form (fixed ports; nothing listens or binds here).
+pub fn inproc_value(cfg: &ConfigSpec) -> Value {
+    let mut c = cfg.clone();
+    c.lock_port = Some(20001);
+    c.log_port = Some(20002);
+    let mut value = c.to_value();
+    if cfg.sequences.contains_key("check") {
+        enrich(&mut value);
+    }
+    value
+}
+
+fn load_as_value(path: &std::path::Path) -> Result<Value, String> {
+    let s = monorail::verif::config_load(path)?;
+    serde_json::from_str::<Value>(&s).map_err(|e| format!("config_load returned something that is not JSON: {}", e))
+}
+
+pub fn check_inproc(case: &Case, w: usize) -> CheckResult {
+    let dir = crate::scratch::fast_root().join(format!("w{}", w)).join("c18ip");
+    std::fs::create_dir_all(&dir).map_err(|e| Inconclusive(e.to_string()))?;
+    let path = dir.join("Monorail.json");
+    let value = inproc_value(&case.config);
+    let compact = jsonw::write(&value, &Layout::compact());
+    std::fs::write(&path, &compact).map_err(|e| Inconclusive(e.to_string()))?;
+    let reference = match load_as_value(&path) {
+        Ok(v) => v,
+        Err(e) => {
+            return viol_obs(
+                "c18.inproc.compact.rejected",
+                format!("loading rejects a valid configuration in compact form ({} bytes)", compact.len()),
+                json!({"error": e}),
+            )
+        }
+    };
+    // the loaded configuration is the one that was written: every target, in order
+    let want: Vec<String> = case.config.targets.iter().map(|t| t.path.clone()).collect();
+    let got: Vec<String> = reference
+        .get("targets")
+        .and_then(|t| t.as_array())
+        .map(|a| a.iter().filter_map(|t| t.get("path").and_then(|p| p.as_str()).map(String::from)).collect())
+        .unwrap_or_default();
+    if want != got {
+        return viol_obs("c18.inproc.targets", "the loaded configuration does not list the configured targets".into(), json!({"want": want, "got": got}));
+    }
+    let mut info = CaseInfo::new(false);
+    let mut nontrivial = false;
+    for l in &case.layouts {
+        let bytes = jsonw::write(&value, l);
+        match serde_json::from_slice::<Value>(&bytes) {
+            Ok(back) if back == value => {}
+            _ => return inconclusive("harness JSON writer produced a different value".into()),
+        }
+        std::fs::write(&path, &bytes).map_err(|e| Inconclusive(e.to_string()))?;
+        let got = load_as_value(&path);
+        if got.as_ref().ok() != Some(&reference) {
+            let sig = if bytes.len() > 8192 { "c18.inproc.differs.large" } else { "c18.inproc.differs" };
+            return viol_obs(
+                sig,
+                format!("loading gives a different result for another serialisation of the same value ({} bytes, layout {:?})", bytes.len(), l),
+                json!({"result": got.as_ref().err()}),
+            );
+        }
+        if bytes.len() > 8192 && serde_json::from_slice::<Value>(&bytes[..8192]).is_err() {
+            nontrivial = true;
+        }
+        info = info.class(match bytes.len() {
+            0..=8191 => "size<8192",
+            8192..=8193 => "size=8192..8193",
+            8194..=20_000 => "size<=20k",
+            20_001..=100_000 => "size<=100k",
+            100_001..=1_000_000 => "size<=1M",
+            _ => "size>1M",
+        });
+        info = info
+            .class_if(l.key_seed != 0, "shuffled-keys")
+            .class_if(l.escapes == Escapes::Exotic, "exotic-escapes")
+            .class_if(matches!(l.align_non_ascii, Some((_, d, _)) if d == 0 || d == -1), "multibyte-char-straddles-boundary");
+    }
+    let _ = std::fs::remove_file(&path);
+    info.nontrivial = nontrivial;
+    Ok(info.class_if(case.config.targets.len() >= 100, "targets>=100"))
+}
+
+/// bytes -> case, for the libFuzzer target (same case type, same oracle)
+pub fn decode_case(b: &mut gen::decode::Bytes) -> Case {
+    let big = b.u8() % 4 == 0;
+    let config = if big {
+        let n = 20 + b.u8() as usize;
+        let picks: Vec<u16> = (0..16).map(|_| b.u16()).collect();
+        big_config(n, &picks)
+    } else {
+        let raw = gen::decode::raw_config(b, 8, 3, 2);
+        let mut c = gen::build_config(&raw, CycleMode::Acyclic);
+        c.sequences.insert("dev".into(), vec!["build".into(), "test é".into()]);
+        c.sequences.insert("check".into(), vec!["lint".into(), "zeta".into()]);
+        c
+    };
+    let mut layouts = vec![];
+    let n = 1 + b.below(6);
+    for _ in 0..n {
+        let ws = match b.below(3) {
+            0 => Ws::Compact,
+            1 => Ws::Pretty(1 + b.below(4)),
+            _ => Ws::Random(b.u64() | 1),
+        };
+        let key_seed = if b.u8() & 1 == 0 { 0 } else { b.u64() };
+        let escapes = [Escapes::None, Escapes::None, Escapes::NonAscii, Escapes::SomeAscii, Escapes::Exotic][b.below(5)].clone();
+        let pad_to = match b.below(8) {
+            0 | 1 | 2 => 0,
+            3 => 8191 + b.below(3),
+            4 => 16383 + b.below(3),
+            5 => 65535 + b.below(3),
+            6 => b.u16() as usize,
+            _ => 131071 + b.below(3),
+        };
+        let pad_pos = [PadPos::Before, PadPos::Inside, PadPos::After][b.below(3)].clone();
+        let align = if b.u8() % 3 == 0 {
+            Some(([1024usize, 4096, 8192, 16384, 32768, 65536][b.below(6)], b.below(4) as i32 - 2, b.u16()))
+        } else {
+            None
+        };
+        layouts.push(Layout {
+            ws,
+            key_seed,
+            escapes: if align.is_some() { Escapes::None } else { escapes },
+            pad_to: if align.is_some() { 0 } else { pad_to },
+            pad_pos,
+            align_non_ascii: align,
+        });
+    }
+    Case { config, layouts }
 }
 
 pub fn run(ctx: &mut Ctx) {
@@ -314,13 +532,15 @@ oracle (metamorphic): the compact form is accepted, and every serialisation yiel
 `analyze --target-groups`, and for the small configurations (4 named sequences, 4 command definitions and 3 argmap definitions on two targets, every documented optional field spelled out) also `result show` and `log show` (of the run made under the previous serialisation), `target show --commands`, `run -s check`, `run -s release`, `run -c build zeta alpha` (failed flag and statuses); finally `config generate` is fed the value (plus a source path) on stdin in compact form and in the first three serialisations and must write the same configuration each time. non-trivial = some serialisation is larger than 8192 bytes and its first 8192 bytes are not a complete document; distinct by SHA-256"
         .to_string();
     ctx.assumptions = vec!["validity of the value is established through the in-process hook (serde + Index), independently of file reading".into()];
+    let ni = ctx.n(4000, 150_000);
+    ctx.drive("inproc-load", strategy_inproc, ni, check_inproc);
     let n = ctx.n(200, 4000);
     ctx.drive("value", strategy, n, check);
 }
 
 pub fn replay(ctx: &Ctx, label: &str, case: Value) -> Result<(), String> {
     let c: Case = serde_json::from_value(case).map_err(|e| e.to_string())?;
-    let r = check(&c, 0);
+    let r = if label.contains("inproc") { check_inproc(&c, 0) } else { check(&c, 0) };
     ctx.replay_one(label, &c, r);
     Ok(())
 }
